@@ -608,6 +608,97 @@ def single_cells(r, reps):
     return out
 
 
+# ---- typed members: string / double / long / bool members through every access path (Python shadow, no Lean model: the value-tree
+#      laws of CbModel.Heap do not depend on the leaf type; this suite checks that the implementation does not either)
+TYPED_HDR = """struct Card { string owner; double w; long lg; bool ok; int n; };
+interface IC { void rename(string v); void weigh(double d); string who(); long lgv(); }
+impl IC for Card {
+    void rename(string v) { self.owner = v; self.n = self.n + 1; }
+    void weigh(double d) { self.w = d; self.ok = true; }
+    string who() { return self.owner; }
+    long lgv() { return self.lg; }
+}
+void ref_lit(Card& c) { c.owner = "promoted"; c.ok = true; c.w = 2.5; c.lg = 5000000000; }
+void ref_var(Card& c, string v, double d, long g) { c.owner = v; c.w = d; c.lg = g; c.ok = false; }
+void val_mod(Card c) { c.owner = "byval"; c.w = 9.5; c.lg = 1; println("bv", c.owner, c.w, c.lg, c.ok, c.n); }
+void ptr_set(Card* q, string v, double d) { q->owner = v; q->w = d; q->lg = q->lg + 1; q->ok = true; }
+Card ret_mod(Card c, string v) { c.owner = v; c.w = c.w + 1.0; return c; }
+void dump(Card c) { println("D", c.owner, c.w, c.lg, c.ok, c.n); }
+"""
+TYPED_STR = ["a", "xy", "hello world", "é", "", "s3"]
+TYPED_DBL = [0.5, 1.25, -0.25, 10.0, 2.5, 1024.75]
+TYPED_LNG = [0, 7, -3000000000, 4294967296, 9007199254740993]
+
+
+def fmt_d(d):
+    return repr(float(d))
+
+
+def typed_case(r, nops):
+    st = {"c1": {"owner": "initial", "w": 1.25, "lg": 3000000000, "ok": 0, "n": 1}, "c2": None}
+    L = [TYPED_HDR, "int main() {\n    Card c1;\n    c1.owner = \"initial\"; c1.w = 1.25; c1.lg = 3000000000; c1.ok = false; c1.n = 1;\n    Card c2 = c1;\n    Card* p = &c1;\n"]
+    st["c2"] = dict(st["c1"])
+    ptr = ["c1"]
+    exp = []
+    kinds_used = []
+
+    def line(v):
+        c = st[v]
+        return "%s %s %d %d %d" % (c["owner"], fmt_d(c["w"]), c["lg"], c["ok"], c["n"])
+
+    def dump_all():
+        for v in ("c1", "c2"):
+            L.append("    println(\"P\", %s.owner, %s.w, %s.lg, %s.ok, %s.n);\n" % (v, v, v, v, v))
+            exp.append("P " + line(v))
+            L.append("    dump(%s);\n" % v)
+            exp.append("D " + line(v))
+            L.append("    println(\"I {%s.owner} {%s.lg} {%s.n}\");\n" % (v, v, v))
+            exp.append("I %s %d %d" % (st[v]["owner"], st[v]["lg"], st[v]["n"]))
+            L.append("    println(\"M\", %s.who(), %s.lgv());\n" % (v, v))
+            exp.append("M %s %d" % (st[v]["owner"], st[v]["lg"]))
+        t = st[ptr[0]]
+        L.append("    println(\"A\", p->owner, p->w, p->lg, p->ok, (*p).owner, (*p).lg);\n")
+        exp.append("A %s %s %d %d %s %d" % (t["owner"], fmt_d(t["w"]), t["lg"], t["ok"], t["owner"], t["lg"]))
+    dump_all()
+    for _ in range(nops):
+        k = r.below(14)
+        v = r.choice(["c1", "c2"])
+        o = "c2" if v == "c1" else "c1"
+        s_, d_, g_ = r.choice(TYPED_STR), r.choice(TYPED_DBL), r.choice(TYPED_LNG)
+        if k == 0:
+            L.append("    ref_lit(%s);\n" % v); st[v].update(owner="promoted", ok=1, w=2.5, lg=5000000000); kinds_used.append("ref_lit")
+        elif k == 1:
+            L.append("    ref_var(%s, \"%s\", %s, %d);\n" % (v, s_, fmt_d(d_), g_)); st[v].update(owner=s_, w=d_, lg=g_, ok=0); kinds_used.append("ref_var")
+        elif k == 2:
+            L.append("    val_mod(%s);\n" % v); c = st[v]; exp.append("bv byval 9.5 1 %d %d" % (c["ok"], c["n"])); kinds_used.append("val_mod")
+        elif k == 3:
+            L.append("    ptr_set(p, \"%s\", %s);\n" % (s_, fmt_d(d_))); t = st[ptr[0]]; t.update(owner=s_, w=d_, lg=t["lg"] + 1, ok=1); kinds_used.append("ptr_set")
+        elif k == 4:
+            L.append("    %s = ret_mod(%s, \"%s\");\n" % (v, o, s_)); st[v] = dict(st[o]); st[v].update(owner=s_, w=st[o]["w"] + 1.0); kinds_used.append("ret_mod")
+        elif k == 5:
+            L.append("    %s.rename(\"%s\");\n" % (v, s_)); st[v].update(owner=s_, n=st[v]["n"] + 1); kinds_used.append("method_str")
+        elif k == 6:
+            L.append("    %s.weigh(%s);\n" % (v, fmt_d(d_))); st[v].update(w=d_, ok=1); kinds_used.append("method_dbl")
+        elif k == 7:
+            L.append("    %s = %s;\n" % (v, o)); st[v] = dict(st[o]); kinds_used.append("copy")
+        elif k == 8:
+            L.append("    %s.owner = \"%s\";\n    %s.w = %s;\n    %s.lg = %d;\n" % (v, s_, v, fmt_d(d_), v, g_)); st[v].update(owner=s_, w=d_, lg=g_); kinds_used.append("plain")
+        elif k == 9:
+            L.append("    p = &%s;\n" % v); ptr[0] = v; kinds_used.append("reseat")
+        elif k == 10:
+            L.append("    p->owner = \"%s\";\n    p->lg = %d;\n    (*p).w = %s;\n" % (s_, g_, fmt_d(d_))); st[ptr[0]].update(owner=s_, lg=g_, w=d_); kinds_used.append("arrow_store")
+        elif k == 11:
+            L.append("    p->rename(\"%s\");\n" % s_); t = st[ptr[0]]; t.update(owner=s_, n=t["n"] + 1); kinds_used.append("method_ptr")
+        elif k == 12:
+            L.append("    %s.owner = %s.owner;\n    %s.w = %s.w;\n" % (v, o, v, o)); st[v].update(owner=st[o]["owner"], w=st[o]["w"]); kinds_used.append("member_copy")
+        else:
+            L.append("    %s.lg = %s.lg + 1;\n    %s.ok = !%s.ok;\n" % (v, v, v, v)); st[v].update(lg=st[v]["lg"] + 1, ok=1 - st[v]["ok"]); kinds_used.append("member_arith")
+        dump_all()
+    L.append("    println(\"END\");\n    return 0;\n}\n")
+    exp.append("END")
+    return "".join(L), "\n".join(exp) + "\n", kinds_used
+
+
 def first_diff(exp, got):
     e, g = exp.split("\n"), got.split("\n")
     for i in range(max(len(e), len(g))):
